@@ -584,12 +584,12 @@ theorem Inv.nodeOnly {S : SpecSt} {M : St} (h : Inv S M) (j : Nat) (n' : NodeSt)
     · simp only [upd_other _ _ hi]
 
 theorem Inv.open {S : SpecSt} {M : St} (h : Inv S M) (c : Conn) :
-    Inv (specStep ttl S (stepOk M (.open c)) (.open c)) (createConnection M c) := by
+    Inv (specStepCore ttl S (stepOk M (.open c)) (.open c)) (createConnection M c) := by
   unfold createConnection
   by_cases hs : c ∈ (M.nodes c.node).streams
-  · simp only [hs, if_true, specStep, stepOk]
+  · simp only [hs, if_true, specStepCore, stepOk]
     simpa using h
-  · simp only [hs, if_false, specStep, stepOk, not_false_eq_true, decide_true, if_true]
+  · simp only [hs, if_false, specStepCore, stepOk, not_false_eq_true, decide_true, if_true]
     refine ⟨h.now_eq, ?_, ?_, ?_, ?_, h.down_eq⟩
     · intro i
       by_cases hi : i = c.node
@@ -681,10 +681,10 @@ theorem hsStore_client_other {P : Params} (hv : P.v = repaired) {o : List Conn} 
 
 theorem Inv.handshake {P : Params} (hv : P.v = repaired) (httl : 0 < P.ttl) {S : SpecSt} {M : St} (h : Inv S M)
     (c : Conn) (ok : Bool) :
-    Inv (specStep P.ttl S (stepOk M (.hs c ok)) (.hs c ok)) (handleHandshake P M c true ok) := by
+    Inv (specStepCore P.ttl S (stepOk M (.hs c ok)) (.hs c ok)) (handleHandshake P M c true ok) := by
   unfold handleHandshake
   by_cases hnf : c ∉ (M.nodes c.node).ctrl ∧ c ∉ (M.nodes c.node).conns
-  · simp only [hnf, and_self, specStep, stepOk]
+  · simp only [hnf, and_self, specStepCore, stepOk]
     simp; exact h
   · simp only [hnf, if_false]
     have hfound : c ∈ (M.nodes c.node).ctrl ∨ c ∈ (M.nodes c.node).conns := by
@@ -695,17 +695,17 @@ theorem Inv.handshake {P : Params} (hv : P.v = repaired) (httl : 0 < P.ttl) {S :
         · exact absurd ⟨h1, h2⟩ hnf
     cases ok with
     | false =>
-      simp only [Bool.not_false, if_true, specStep, Bool.false_and, Bool.false_eq_true, if_false]
+      simp only [Bool.not_false, if_true, specStepCore, Bool.false_and, Bool.false_eq_true, if_false]
       exact h.nodeOnly c.node _ ((h.nodeOk _).of_addCtrl hfound) rfl rfl
     | true =>
       simp only [Bool.not_true, Bool.false_eq_true, if_false]
       by_cases hdead : c ∈ (M.nodes c.node).dead
-      · simp only [hdead, decide_true, if_true, specStep, stepOk, not_true_eq_false, decide_false,
+      · simp only [hdead, decide_true, if_true, specStepCore, stepOk, not_true_eq_false, decide_false,
           Bool.and_false, Bool.false_and, Bool.false_eq_true, if_false]
         exact h.nodeOnly c.node _ ((h.nodeOk _).of_addAuth hfound) rfl rfl
       · simp only [hdead, decide_false, Bool.false_eq_true, if_false]
         by_cases hx0 : c.client = 0
-        · simp only [hx0, decide_true, Bool.or_true, if_true, specStep, Nat.lt_irrefl, gt_iff_lt, decide_false,
+        · simp only [hx0, decide_true, Bool.or_true, if_true, specStepCore, Nat.lt_irrefl, gt_iff_lt, decide_false,
             Bool.and_false, Bool.false_eq_true, if_false]
           exact h.nodeOnly c.node _ ((h.nodeOk _).of_addAuth hfound) rfl rfl
         · have hx : 0 < c.client := Nat.pos_of_ne_zero hx0
@@ -713,7 +713,7 @@ theorem Inv.handshake {P : Params} (hv : P.v = repaired) (httl : 0 < P.ttl) {S :
             simp only [stepOk, Bool.true_and, hdead, not_false_eq_true, decide_true, Bool.and_true,
               Bool.or_eq_true, decide_eq_true_eq]
             exact hfound
-          simp only [hx0, decide_false, Bool.or_false, Bool.false_eq_true, if_false, specStep, hr,
+          simp only [hx0, decide_false, Bool.or_false, Bool.false_eq_true, if_false, specStepCore, hr,
             Bool.true_and, gt_iff_lt, hx, decide_true, if_true]
           -- the registering branch
           have hn := h.nodeOk c.node
@@ -761,9 +761,9 @@ theorem Inv.handshake {P : Params} (hv : P.v = repaired) (httl : 0 < P.ttl) {S :
               · rw [hsStore_client_other hv h.store M.now hn hx (fun e => hy e.symm)]; exact h6
 
 theorem Inv.handshakeTunnel {P : Params} {S : SpecSt} {M : St} (h : Inv S M) (c : Conn) (ok : Bool) :
-    Inv (specStep P.ttl S (stepOk M (.hsTunnel c ok)) (.hsTunnel c ok)) (handleHandshake P M c false ok) := by
+    Inv (specStepCore P.ttl S (stepOk M (.hsTunnel c ok)) (.hsTunnel c ok)) (handleHandshake P M c false ok) := by
   unfold handleHandshake
-  simp only [specStep]
+  simp only [specStepCore]
   by_cases hnf : c ∉ (M.nodes c.node).ctrl ∧ c ∉ (M.nodes c.node).conns
   · simp only [hnf, and_self]; exact h
   · simp only [hnf, if_false]
@@ -814,14 +814,14 @@ theorem refresh_client_other {P : Params} (hv : P.v = repaired) {o : List Conn} 
 
 theorem Inv.heartbeat {P : Params} (hv : P.v = repaired) (httl : 0 < P.ttl) {S : SpecSt} {M : St} (h : Inv S M)
     (c : Conn) :
-    Inv (specStep P.ttl S (stepOk M (.hb c)) (.hb c)) (handleHeartbeat P M c) := by
+    Inv (specStepCore P.ttl S (stepOk M (.hb c)) (.hb c)) (handleHeartbeat P M c) := by
   unfold handleHeartbeat
   have hrb : P.v.refreshHb = true := by simp [hv, repaired]
   by_cases hg : c ∈ (M.nodes c.node).ctrl ∧ c ∈ (M.nodes c.node).authed ∧ 0 < c.client
   · -- the records are refreshed
     have hcond : (P.v.refreshHb && decide (c ∈ (M.nodes c.node).ctrl) && decide (c ∈ (M.nodes c.node).authed)
         && decide (c.client > 0)) = true := by simp [hrb, hg.1, hg.2.1, hg.2.2]
-    simp only [hcond, if_true, specStep]
+    simp only [hcond, if_true, specStepCore]
     -- every reference obligation of a connection other than `c` survives the refresh
     have hother : ∀ y c2 u2, LMap.lookup S.latest y = some (c2, u2) → c2 ≠ c →
         c2.client = y ∧ 0 < y ∧ c2 ∈ S.opened ∧ FMap.lookup (M.nodes c2.node).byClient y = some c2 ∧
@@ -904,7 +904,7 @@ theorem Inv.heartbeat {P : Params} (hv : P.v = repaired) (httl : 0 < P.ttl) {S :
           · simp [h3]
         · simp [h2]
       · simp [h1]
-    simp only [hcond, Bool.false_eq_true, if_false, specStep]
+    simp only [hcond, Bool.false_eq_true, if_false, specStepCore]
     cases hl : LMap.lookup S.latest c.client with
     | none => exact h
     | some p =>
@@ -1008,12 +1008,12 @@ theorem sweepStale_eq (P : Params) (M : St) (c : Conn) (hc : c ∈ (M.nodes c.no
 /-! ## duplicate-login eviction, shutdown -/
 
 theorem Inv.kick {S : SpecSt} {M : St} (h : Inv S M) (c : Conn) :
-    Inv (specStep ttl S (stepOk M (.kick c)) (.kick c)) (kickOld M c) := by
+    Inv (specStepCore ttl S (stepOk M (.kick c)) (.kick c)) (kickOld M c) := by
   -- whatever the reference forgets, the remaining obligations are among the old ones
-  have hsub : ∀ y c2 u2, LMap.lookup (specStep ttl S (stepOk M (.kick c)) (.kick c)).latest y = some (c2, u2) →
+  have hsub : ∀ y c2 u2, LMap.lookup (specStepCore ttl S (stepOk M (.kick c)) (.kick c)).latest y = some (c2, u2) →
       LMap.lookup S.latest y = some (c2, u2) ∧ ¬ (y = c.client ∧ c2.node = c.node ∧ c2 ≠ c) := by
     intro y c2 u2 hl
-    simp only [specStep] at hl
+    simp only [specStepCore] at hl
     cases hl0 : LMap.lookup S.latest c.client with
     | none =>
       simp only [hl0] at hl
@@ -1032,10 +1032,10 @@ theorem Inv.kick {S : SpecSt} {M : St} (h : Inv S M) (c : Conn) :
         rintro ⟨e, h2, h3⟩; subst e
         rw [hl0] at hl; injection hl with hl; subst hl
         exact hp ⟨h2, h3⟩
-  have hS : (specStep ttl S (stepOk M (.kick c)) (.kick c)).opened = S.opened ∧
-      (specStep ttl S (stepOk M (.kick c)) (.kick c)).now = S.now ∧
-      (specStep ttl S (stepOk M (.kick c)) (.kick c)).down = S.down := by
-    simp only [specStep]
+  have hS : (specStepCore ttl S (stepOk M (.kick c)) (.kick c)).opened = S.opened ∧
+      (specStepCore ttl S (stepOk M (.kick c)) (.kick c)).now = S.now ∧
+      (specStepCore ttl S (stepOk M (.kick c)) (.kick c)).down = S.down := by
+    simp only [specStepCore]
     cases LMap.lookup S.latest c.client with
     | none => exact ⟨rfl, rfl, rfl⟩
     | some p => simp only; split <;> exact ⟨rfl, rfl, rfl⟩
@@ -1089,9 +1089,10 @@ theorem NodeOk.closed (j : Nat) (n : NodeSt) : NodeOk j n.closed :=
   ⟨fun c h => by simp [NodeSt.closed] at h, fun c h => by simp [NodeSt.closed] at h,
    fun x c h => by simp [NodeSt.closed] at h⟩
 
-theorem Inv.shutdown {S : SpecSt} {M : St} (h : Inv S M) (n : Nat) :
+theorem Inv.shutdown {S : SpecSt} {M : St} (h : Inv S M) (n : Nat) (hd : n ∉ M.down) :
     Inv { S with latest := LMap.dropNode S.latest n, down := n :: S.down } (shutdownNode M n) := by
   unfold shutdownNode
+  simp only [hd, if_false]
   refine ⟨h.now_eq, ?_, ?_, h.store, ?_, by simp [h.down_eq]⟩
   · intro i
     by_cases hi : i = n
@@ -1115,8 +1116,8 @@ theorem Inv.setPending {S : SpecSt} {M : St} (h : Inv S M) (p : FMap (Nat × Nat
 
 /-! ## one step -/
 
-theorem Inv.step {P : Params} (hv : P.v = repaired) (httl : 0 < P.ttl) {S : SpecSt} {M : St} (h : Inv S M)
-    (e : Ev) : Inv (specStep P.ttl S (stepOk M e) e) (step P M e) := by
+theorem Inv.stepCore {P : Params} (hv : P.v = repaired) (httl : 0 < P.ttl) {S : SpecSt} {M : St} (h : Inv S M)
+    (e : Ev) : Inv (specStepCore P.ttl S (stepOk M e) e) (stepCore P M e) := by
   cases e with
   | «open» c => exact h.open c
   | hs c ok => exact h.handshake hv httl c ok
@@ -1124,20 +1125,25 @@ theorem Inv.step {P : Params} (hv : P.v = repaired) (httl : 0 < P.ttl) {S : Spec
   | hb c => exact h.heartbeat hv httl c
   | close c k =>
     cases k with
-    | direct => simpa [specStep, stepOk, Tunnox.C08.step] using h.closeConn hv c
-    | eof => simpa [specStep, stepOk, Tunnox.C08.step] using h.closeConn hv c
+    | direct => simpa [specStepCore, stepOk, Tunnox.C08.stepCore] using h.closeConn hv c
+    | eof => simpa [specStepCore, stepOk, Tunnox.C08.stepCore] using h.closeConn hv c
     | disconnect =>
       by_cases hc : c ∈ (M.nodes c.node).ctrl
-      · simpa [specStep, stepOk, Tunnox.C08.step, handleDisconnect, hc] using h.closeConn hv c
-      · simpa [specStep, stepOk, Tunnox.C08.step, handleDisconnect, hc] using h
+      · simpa [specStepCore, stepOk, Tunnox.C08.stepCore, handleDisconnect, hc] using h.closeConn hv c
+      · simpa [specStepCore, stepOk, Tunnox.C08.stepCore, handleDisconnect, hc] using h
     | sweep =>
       by_cases hc : c ∈ (M.nodes c.node).ctrl
       · have := h.closeConn hv c
         rw [← sweepStale_eq P M c hc] at this
-        simpa [specStep, stepOk, Tunnox.C08.step, hc] using this
-      · simpa [specStep, stepOk, Tunnox.C08.step, sweepStale, hc] using h
+        simpa [specStepCore, stepOk, Tunnox.C08.stepCore, hc] using this
+      · simpa [specStepCore, stepOk, Tunnox.C08.stepCore, sweepStale, hc] using h
   | kick c => exact h.kick c
-  | shutdown n => exact h.shutdown n
+  | shutdown n =>
+    by_cases hd : n ∈ M.down
+    · have hd' : n ∈ S.down := h.down_eq ▸ hd
+      simpa [specStepCore, stepOk, Tunnox.C08.stepCore, shutdownNode, hd, hd'] using h
+    · have hd' : n ∉ S.down := h.down_eq ▸ hd
+      simpa [specStepCore, stepOk, Tunnox.C08.stepCore, hd'] using h.shutdown n hd
   | lookBegin j x => exact h.setPending _
   | lookEnd j x => exact h.setPending _
   | tick dt => exact h.tick dt
@@ -1263,44 +1269,5 @@ theorem routeOk_of_inv {P : Params} (hv : P.v = repaired) {S : SpecSt} {M : St} 
             simp only [List.any_eq_true, beq_iff_eq]
             exact ⟨c, hco, hcx⟩
       rw [hr]; simp
-
-theorem nodeViewOk_range {P : Params} (hv : P.v = repaired) {S : SpecSt} {M : St} (h : Inv S M) (x : Nat) :
-    ∀ n j, nodeViewOk S x j ((List.range' j n).map
-      (fun i => (findClientNode P M.now M.store x, route P M i x))) = true := by
-  intro n
-  induction n with
-  | zero => intro j; simp [nodeViewOk]
-  | succ n ih =>
-    intro j
-    simp only [List.range'_succ, List.map_cons, nodeViewOk, Bool.and_eq_true]
-    exact ⟨⟨lookOk_of_inv hv h x, routeOk_of_inv hv h x j⟩, ih (j + 1)⟩
-
-theorem obsOk_of_inv {P : Params} (hv : P.v = repaired) {S : SpecSt} {M : St} (h : Inv S M) (nn : Nat)
-    (clients : List Nat) : obsOk S nn clients (observe P nn clients M) = true := by
-  unfold obsOk observe
-  rw [Bool.and_eq_true]
-  constructor
-  · have : (List.map (fun p : Nat × List (Look × Route) => p.1) (List.map (fun x => (x, view P nn M x)) clients)) = clients := by
-      induction clients with
-      | nil => rfl
-      | cons a r ih => simp only [List.map_cons, ih]
-    rw [this]; simp
-  · simp only [List.all_map, List.all_eq_true]
-    intro x _
-    simp only [Function.comp, view, List.length_map, List.length_range, beq_self_eq_true, Bool.true_and]
-    rw [List.range_eq_range']
-    exact nodeViewOk_range hv h x nn 0
-
-theorem holdsFrom_run {P : Params} (hv : P.v = repaired) (httl : 0 < P.ttl) (nn : Nat) (clients : List Nat) :
-    ∀ (evs : List Ev) (S : SpecSt) (M : St), Inv S M →
-      holdsFrom P.ttl nn clients S evs (runFrom P nn clients M evs) = true := by
-  intro evs
-  induction evs with
-  | nil => intro S M _; rfl
-  | cons e es ih =>
-    intro S M h
-    simp only [runFrom, holdsFrom, Bool.and_eq_true]
-    have h' := h.step hv httl e
-    exact ⟨obsOk_of_inv hv h' nn clients, ih _ _ h'⟩
 
 end Tunnox.C08
